@@ -118,7 +118,9 @@ RULE = ("exhaustive vocabularies (<= 4 distinct tags) x tag / predicted-tag list
         "of <= 2 (<= 3 thorough) of 8 tags over 4 terms x 45 identity patterns (equal terms shared / separate / mixed x probe "
         "term object fresh / own / another tag's x probe new / model_copy(update) / same object / copy / subclass), the "
         "class of the vocabulary tags cycling over Tag / subclass / mixed, and random vocabularies x lists with a pattern "
-        "chosen independently per element for classification / multilabel / prediction; realised identities tallied")
+        "chosen independently per element for classification / multilabel / prediction; realised identities tallied; "
+        "follow-up (wave 6): fully populated terms (every declared field non-None, two extras) with one field changed / "
+        "emptied / dropped, as Term, in Tag / Feature and inside the uuid-hashed classes, all ordered pairs one field apart")
 TRUSTED = ["CPython dict, tuple, str, float and UUID hashing/equality",
            "pydantic-core construction of the data objects (observed through __dict__ / __pydantic_extra__)",
            "numpy float32 assignment (value recomputed with struct.pack('f') and monitored as a contract)",
